@@ -593,6 +593,7 @@ func runMinMaxSpellings(c *engine.Ctx) {
 func run(c *engine.Ctx) {
 	runFamilies(c)
 	runMinMaxSpellings(c)
+	runDefaultChains(c)
 	bases := []string{"int8", "uint8", "int64", "uint64", "decimal64/1", "decimal64/2", "decimal64/18", "string"}
 	nTypedefs := 2
 	nlat := 11
@@ -678,6 +679,9 @@ func run(c *engine.Ctx) {
 }
 
 func replay(c *engine.Ctx, sub string, raw json.RawMessage) []engine.Violation {
+	if sub == "defchain" {
+		return replayDefChain(raw)
+	}
 	if sub == "family" {
 		var f family
 		if json.Unmarshal(raw, &f) != nil || len(f.Leaves) == 0 {
